@@ -77,14 +77,15 @@ def handlePair (j : Json) : Except String Json := do
     | _ => pure []
   let rd := d.toRx
   let rb := b.toRx
-  let incl := Rx.inclDecide Leaf.matches sig fuel rd rb
+  let run := Rx.inclRun Leaf.matches sig fuel rd rb
+  let incl := run.1
   let bf : Json := match words.findIdx? fun w => Rx.accepts Leaf.matches rd w && !Rx.accepts Leaf.matches rb w with
     | some i => Json.num i
     | none => Json.null
   return Json.mkObj [("m", verdictJson (contentRestriction C d b)),
     ("acc", verdictJson (typeRestrictionAccepted C d b)),
     ("admits", admitsRestriction C b d.kind), ("incl", inclJson incl),
-    ("states", Rx.inclStates Leaf.matches sig fuel rd rb), ("bf", bf),
+    ("states", run.2), ("bf", bf),
     ("ext", extendedCopies C (iterModel b)),
     ("emptiable", Json.arr #[emptiable d, emptiable b]),
     ("eff", Json.arr #[(eff d).1, match (eff d).2 with | some x => Json.num x | none => Json.null,
